@@ -379,6 +379,56 @@ def sym_tree(fixed, depth2=True):
     return root, evaluate, uses_d, describe
 
 
+
+def chain_task(k, opname, order_vars, fixed=None):
+    """`x1 and x2 and ... and xk` / `or`: ONE BoolOp node with k operands (the shape Python's ast gives a keyword chain), every operand
+    an arbitrary leaf (a b c d 0 1 True False, 3 unknown bits each): the diagram denotes the conjunction/disjunction of the leaves,
+    raises RuntimeError iff a leaf is outside the ordering, nothing else"""
+    import importlib
+    OB = importlib.import_module('pyModelChecking.BDD.OBDD')
+    fixed = dict(fixed or {})
+    order_vars = list(order_vars)
+    names = [n_ for n_ in ['h%d_%d' % (j, i) for j in range(k) for i in range(3)] if n_ not in fixed]
+    BB, vm, ctx, fr = setup(names)
+    t0 = time.time()
+    sel = [onehot3('h%d_' % j, fixed) for j in range(k)]
+    leaves = [choice([(sel[j][c], leaf_ast(c)) for c in range(8)]) for j in range(k)]
+    root = ast.BoolOp(op=ast.And() if opname == 'and' else ast.Or(), values=leaves)
+    ordering = ctx.call(OB.Ordering, [list(order_vars)], {})
+    res = ctx.call(OB.parse_binary_expr, [ordering, root], {})
+    rt = exc_guard(fr, only=RuntimeError)
+    other = exc_guard(fr, but=RuntimeError)
+    ok_g = ctx.g
+    Rroot = fold(res, lambda o: o.attrs['root'] if o is not None else None) if res is not None else None
+    asgs = asgs_of(['a', 'b', 'c'])
+    impl = [rt] + [b_and(ok_g, den(Rroot, a, BB)) if Rroot is not None else False for a in asgs]
+    sbad, nlive = structure_bad([Rroot] if Rroot is not None else [], order_vars, BB)
+    bad = [b_and(ok_g, x) for x in sbad] + [other, unwind_guard(vm)]
+    t1 = time.time()
+    encoded = sorted(vm.encoded)
+    kinds = exc_kinds(fr)
+    d = Decider(timeout_ms=600000)
+    sel2 = [onehot3('h%d_' % j, fixed) for j in range(k)]
+    D = LEAF_KINDS.index('d')
+
+    def leafval(j, asg):
+        return b_or(*[b_and(sel2[j][c], {'a': asg['a'], 'b': asg['b'], 'c': asg['c'], 'd': False, '0': False, '1': True, 'True': True, 'False': False}[LEAF_KINDS[c]])
+                      for c in range(8)])
+    uses_d = b_or(*[sel2[j][D] for j in range(k)]) if 'd' not in order_vars else False
+    comb = (lambda xs: b_and(*xs)) if opname == 'and' else (lambda xs: b_or(*xs))
+    want = [uses_d] + [b_and(b_not(uses_d), comb([leafval(j, a) for j in range(k)])) for a in asgs]
+    r = d.differ(impl, want, bad)
+    rec = dict(kind='chain', k=k, op=opname, order=order_vars, verdict=r, encode_s=round(t1 - t0, 2), exc=kinds, encoded=encoded, fixed=fixed)
+    if r == 'sat':
+        m = d.differ_model(impl, want, bad)
+        code = lambda j: sum((1 << i) for i in range(3) if bool(fixed.get('h%d_%d' % (j, i), m.get('h%d_%d' % (j, i), False))))
+        rec['text'] = (' %s ' % opname).join(LEAF_KINDS[code(j)] for j in range(k))
+        rec['model'] = m
+    rec['twin'] = d.holds(impl[1]) if not is_c(impl[1]) else ('sat' if impl[1] else 'unsat')
+    rec.update(d.stats())
+    d.close()
+    return rec
+
 def ast_names(fixed):
     names = ['r_%d' % i for i in range(3)] + ['c%s_%d' % (p, i) for p in '01' for i in range(3)] + ['g%s_%d' % (p, i) for p in ('00', '01', '10', '11') for i in range(3)]
     return [n for n in names if n not in fixed]
